@@ -67,6 +67,7 @@ ATOM_COND = {
     "NAME in " + INFO: ".nameInInfo",
     "PNAME in %s._get_sync_trait_info()['']" % PARTNER: "(.lockedAtPartner true)",
     "NAME in %s._get_sync_trait_info()['']" % PARTNER: "(.lockedAtPartner false)",
+    "%s is None" % PARTNER: ".partnerDead",
     "isinstance(INDEX, slice)": ".indexIsSlice",
     "%s is getattr(self, NAME)" % PLIST: ".sameListObject",
     "event.added": ".eventAdded",
